@@ -13,6 +13,22 @@ ALL = ["C%02d" % i for i in range(1, 21)]
 READY = ["C01", "C02", "C15", "C19", "C04", "C05", "C06", "C07", "C09", "C10", "C12", "C13", "C14", "C16", "C17", "C20", "C08", "C18", "C03", "C11"]
 
 
+def tie_note(mod):
+    """What ties the model to the source besides the correspondence harness (from the module's EQUIV table)."""
+    eq = getattr(mod, "EQUIV", {}) or {}
+    td = sorted(m for m in eq if m.startswith("PV.Equiv.Translated"))
+    tc = sorted(m for m in eq if not m.startswith("PV.Equiv.Translated"))
+    out = ""
+    if tc:
+        out += " Tie T-C: the numeric kernels traced symbolically from the running source on every run are proved equal to the model over the reals (%d theorems in %s)." % (
+            sum(len(eq[m]) for m in tc), ", ".join(tc))
+    if td:
+        out += (" Tie T-D: the discrete/stateful source functions translated statement by statement on every run (harness/pytrans.py) are proved "
+                "equal to the model (%d theorems in %s); their external parameters, listed in PV/Generated/Translated.lean, are trusted." % (
+                    sum(len(eq[m]) for m in td), ", ".join(td)))
+    return out
+
+
 def main():
     checks = []
     na = []
@@ -38,7 +54,7 @@ def main():
                 "text": mod.LEVEL_TEXT,
                 "design_ref": "DESIGN.md section 5, %s" % pid,
             },
-            "level_note": mod.LEVEL_NOTE,
+            "level_note": mod.LEVEL_NOTE + tie_note(mod),
             "technique": mod.TECHNIQUE,
         })
     man = {
